@@ -98,6 +98,9 @@ impl Game {
                     if row == 0 {
                         bail!("Too many rows");
                     }
+                    if col != 8 {
+                        bail!("Incomplete row");
+                    }
                     col = 0;
                     row -= 1;
                 }
@@ -123,6 +126,9 @@ impl Game {
                 }
                 empty_count if character.is_ascii_digit() => {
                     let count = (empty_count as u8 - b'0') as i8;
+                    if count == 0 || count > 8 - col {
+                        bail!("Invalid number of empty squares");
+                    }
                     for i in 0..count {
                         let position = Position::new_assert(row, col + i);
                         past_hashes[position.as_usize()] = zobrist::EMPTY_PLACE;
